@@ -4,6 +4,8 @@ import (
 	"fmt"
 	"strings"
 
+	"golang.org/x/tools/go/ssa"
+
 	"verif/internal/load"
 	"verif/internal/pe"
 	"verif/internal/report"
@@ -22,6 +24,8 @@ func init() {
 	register(&Rule{ID: "SA-JT3", Min: 1000, Thorough: true, Run: func(c *load.Ctx, r *report.RuleResult) { runSAJson(c, r, true, 4) },
 		Doc: "SA-JT with nesting bound 4"})
 }
+
+const maxDivergences = 12
 
 type prodState struct {
 	impl *implState
@@ -55,7 +59,7 @@ func runSAJson(c *load.Ctx, r *report.RuleResult, trailing bool, maxDepth int) {
 	reported := map[string]bool{}
 	bad := func(kind string, ps prodState, input string, detail string) {
 		// key: rule + step function of the implementation state + reference phase + input class
-		key := fmt.Sprintf("%s|%s|impl=%s|ref=%s|on=%s", mode, kind, implStepName(m, ps.impl), refName(ps.ref), input)
+		key := fmt.Sprintf("%s|%s|impl=%s|ref=%s", mode, kind, implStepName(m, ps.impl), refName(ps.ref))
 		if reported[key] {
 			return
 		}
@@ -63,6 +67,10 @@ func runSAJson(c *load.Ctx, r *report.RuleResult, trailing bool, maxDepth int) {
 		r.Bad(key, c.Pos(m.next.Pos()), fmt.Sprintf("%s; shortest input reaching the state: %s then %s", detail, showInput(ps.path), input))
 	}
 	for len(queue) > 0 {
+		if len(reported) >= maxDivergences {
+			r.Note("exploration stopped after %d divergences (breadth-first: the shortest inputs are reported)", len(reported))
+			break
+		}
 		ps := queue[0]
 		queue = queue[1:]
 		pairs++
@@ -191,4 +199,162 @@ func topOf(s []string) string {
 		return "-"
 	}
 	return s[len(s)-1]
+}
+
+// --- schema scanner: plain-JSON part --------------------------------------------------------
+
+func init() {
+	register(&Rule{ID: "SA-E", Min: 30, Run: func(c *load.Ctx, r *report.RuleResult) {
+		runSASibling(c, r, "rules/enum", "newScanner", "scanner", 2)
+	},
+		Doc: "enum-rule scanner on plain JSON arrays of scalars: same acceptance and same events/spans as the RFC 8259 reference (new-line events aside; exponents, nested containers and non-array roots are rejected by design; duplicate detection abstracted)"})
+	register(&Rule{ID: "SA-S", Min: 100, Run: func(c *load.Ctx, r *report.RuleResult) {
+		runSASibling(c, r, "notations/jschema/internal/scanner", "New", "Scanner", 2)
+	},
+		Doc: "schema scanner on plain JSON: for every reachable state pair and every byte the RFC 8259 reference accepts, the schema scanner accepts it too and emits the same events with the same spans (new-line events aside; exponents are rejected by design)"})
+}
+
+func isBlankByte(b int) bool { return b == ' ' || b == '\t' || b == '\n' || b == '\r' }
+
+func dropNewLines(evs []spec.Ev) []spec.Ev {
+	var out []spec.Ev
+	for _, e := range evs {
+		if e.Type != "NewLine" {
+			out = append(out, e)
+		}
+	}
+	return out
+}
+
+func runSASibling(c *load.Ctx, r *report.RuleResult, rel, ctor, typ string, maxDepth int) {
+	m, err := newScanModel(c, rel, ctor, typ, nil)
+	if err != nil {
+		r.Unk("anchor|"+rel+" scanner", "", err.Error())
+		return
+	}
+	enumMode := rel == "rules/enum"
+	if enumMode {
+		// the enum scanner rejects duplicate values by looking the literal's text up in a map: that
+		// depends on the content, which the model does not track; the explored language is "no duplicates".
+		vv := c.Func(rel, typ+".validateValue")
+		if vv == nil {
+			r.Unk("anchor|"+rel+".validateValue", "", "method validateValue not found")
+			return
+		}
+		m.cfg.Intrinsics[vv.String()] = func(in *pe.Interp, args []pe.Value) (pe.Value, bool) { return pe.NilV{}, true }
+		eos := ""
+		for _, o := range pe.ExploreFn(m.cfg, func(in *pe.Interp) pe.Value {
+			g, _ := c.SSAPkg(rel).Members["errEOS"].(*ssa.Global)
+			if g == nil {
+				in.Undecided("global errEOS not found")
+			}
+			return in.Load(in.GlobalPtr(g))
+		}) {
+			if o.Undecided == "" && !o.Panicked {
+				eos = pe.Show(o.Ret)
+			}
+		}
+		if eos == "" {
+			r.Unk("anchor|"+rel+".errEOS", "", "end-of-stream error value not resolvable")
+			return
+		}
+		m.errIsEOS = func(v pe.Value) bool { return pe.Show(v) == eos }
+	}
+	start := prodState{impl: m.Initial(), ref: spec.JRef{}}
+	seen := map[string]bool{start.impl.key + "\x00" + start.ref.Key(): true}
+	queue := []prodState{start}
+	pairs, transitions, skipped := 0, 0, 0
+	reported := map[string]bool{}
+	bad := func(kind string, ps prodState, input string, detail string) {
+		key := fmt.Sprintf("%s|impl=%s|ref=%s", kind, implStepName(m, ps.impl), refName(ps.ref))
+		if reported[key] {
+			return
+		}
+		reported[key] = true
+		r.Bad(key, c.Pos(m.next.Pos()), fmt.Sprintf("%s; shortest input reaching the state: %s then %s", detail, showInput(ps.path), input))
+	}
+	for len(queue) > 0 {
+		if len(reported) >= maxDivergences {
+			r.Note("exploration stopped after %d divergences (breadth-first: the shortest inputs are reported)", len(reported))
+			break
+		}
+		ps := queue[0]
+		queue = queue[1:]
+		pairs++
+		// end of input: where the reference accepts, the scanner must end the same way
+		if evR, accR := ps.ref.EOF(); accR {
+			ir := m.Feed(ps.impl, -2)
+			transitions++
+			switch ir.Kind {
+			case "undecided":
+				r.Unk(fmt.Sprintf("eof|impl=%s", implStepName(m, ps.impl)), c.Pos(m.next.Pos()), ir.Detail+" after "+showInput(ps.path))
+			case "end":
+				if evsString(dropNewLines(ir.Events)) != evsString(evR) {
+					bad("eof-events", ps, "EOF", fmt.Sprintf("events at end of input: scanner %s, expected %s", evsString(ir.Events), evsString(evR)))
+				}
+			default:
+				bad("eof-verdict", ps, "EOF", "a complete JSON value is not accepted at end of input: "+ir.Kind+" "+ir.Detail)
+			}
+		}
+		if ps.ref.Depth() > maxDepth {
+			continue
+		}
+		for b := 0; b < 256; b++ {
+			nref, evR, rejR := ps.ref.Step(byte(b))
+			if rejR {
+				continue
+			}
+			if enumMode {
+				// documented deviation: an enum rule is one array of scalars
+				if ps.ref.Phase == 0 && b != '[' && !isBlankByte(b) {
+					skipped++
+					continue
+				}
+				if (b == '[' || b == '{') && len(ps.ref.Stack) > 0 {
+					skipped++
+					continue
+				}
+			}
+			// documented deviation: JSight examples may not use exponents
+			if (b == 'e' || b == 'E') && ps.ref.Phase == 7 && ps.ref.Lit != nref.Lit && nref.Lit == 13 {
+				skipped++
+				continue
+			}
+			ir := m.Feed(ps.impl, b)
+			transitions++
+			in := fmt.Sprintf("%q", string([]byte{byte(b)}))
+			switch ir.Kind {
+			case "undecided", "lookahead":
+				r.Unk(fmt.Sprintf("byte|impl=%s|on=%s", implStepName(m, ps.impl), in), c.Pos(m.next.Pos()), ir.Kind+": "+ir.Detail+" after "+showInput(ps.path))
+				continue
+			case "crash":
+				bad("crash", ps, in, "scanner fails with a non-library panic: "+ir.Detail)
+				continue
+			case "reject":
+				bad("verdict", ps, in, "scanner rejects a byte that continues a plain JSON text ("+ir.Code+")")
+				continue
+			}
+			if evsString(dropNewLines(ir.Events)) != evsString(evR) {
+				bad("events", ps, in, fmt.Sprintf("events: scanner %s, expected %s", evsString(ir.Events), evsString(evR)))
+				continue
+			}
+			k := ir.Next.key + "\x00" + nref.Key()
+			if !seen[k] {
+				seen[k] = true
+				queue = append(queue, prodState{impl: ir.Next, ref: nref, path: ps.path + string([]byte{byte(b)})})
+			}
+		}
+	}
+	r.OK(fmt.Sprintf("product|depth<=%d", maxDepth), c.Pos(m.next.Pos()),
+		fmt.Sprintf("%d state pairs, %d transitions, %d exponent transitions skipped (documented deviation), %d interpreter runs", pairs, transitions, skipped, m.runs))
+	classes := map[string]int{}
+	for k := range seen {
+		parts := strings.SplitN(k, "\x00", 2)
+		classes[parts[1]]++
+	}
+	for _, k := range sortedKeys(classes) {
+		r.OK("refstate|"+k, "", fmt.Sprintf("%d implementation state(s) agree with the reference", classes[k]))
+	}
+	r.Stat("pairs", pairs)
+	r.Stat("transitions", transitions)
 }
